@@ -1,6 +1,7 @@
 package main
 
 import (
+	"go/types"
 	"math"
 	"fmt"
 	"math/big"
@@ -276,11 +277,36 @@ func init() {
 		return true
 	}
 	models["time.Since"] = func(e *Engine, st *State, x *ssa.Call, args []Value) bool {
-		// an arbitrary non-negative duration (monotonic clock): top bit cleared
+		// an arbitrary non-negative duration (monotonic clock): top bit cleared; a harness may pin the
+		// clock with vpSetClock (1: a very long time has passed, 2: no time has passed)
+		switch st.syncInt["clock"] {
+		case 1:
+			setRes(st, x, e.ts.BVInt(64, 1<<62))
+			return true
+		case 2:
+			setRes(st, x, e.ts.BVInt(64, 0))
+			return true
+		}
 		d := e.ts.App(BV(64), "bvlshr", e.ts.Var("since", BV(64)), e.ts.BVInt(64, 1))
 		setRes(st, x, d)
 		return true
 	}
+	// log/slog: a Logger is an opaque object remembering its handler; its logging methods are no-ops
+	// (calls.go), Enabled is false (discard), Handler returns what New was given.
+	models["log/slog.New"] = func(e *Engine, st *State, x *ssa.Call, args []Value) bool {
+		elem := x.Type().Underlying().(*types.Pointer).Elem()
+		z := e.zero(elem).(*StructV)
+		lg := &StructV{F: append([]Value(nil), z.F...)}
+		lg.F[0] = args[0]
+		o := e.newObj(st, elem, lg)
+		setRes(st, x, &PtrV{Obj: o})
+		return true
+	}
+	models["(*log/slog.Logger).Handler"] = func(e *Engine, st *State, x *ssa.Call, args []Value) bool {
+		setRes(st, x, e.load(st, args[0].(*PtrV)).(*StructV).F[0])
+		return true
+	}
+	models["(*time.Ticker).Stop"] = func(e *Engine, st *State, x *ssa.Call, args []Value) bool { return true }
 	models["(time.Duration).Seconds"] = func(e *Engine, st *State, x *ssa.Call, args []Value) bool {
 		// float64(d)/1e9: differs from Go's float64(sec)+float64(nsec)/1e9 in the last bits only
 		// (sign and zero-ness agree); bvsdiv by 1e9 is avoided on purpose.
